@@ -1,1 +1,274 @@
-def main : IO Unit := pure ()
+/-
+  rtcpmodel — line-protocol driver of the model (one operation per line in, one result line out).
+  Mirrors tools/harness/exec.go op for op. Core Lean only.
+-/
+import Rtcp.Tok
+import Rtcp.Model.Nack
+import Rtcp.Model.Enum
+import Rtcp.Spec.Wire
+open Rtcp
+
+def run {α} (p : P α) (toks : List String) : Option α :=
+  match p.run toks with
+  | some (a, _) => some a
+  | none => none
+
+def outStr {α} (o : Out α) (f : α → String) : String :=
+  match o with
+  | .ok a => let s := f a; if s.isEmpty then "ok" else "ok " ++ s
+  | .err => "err"
+  | .panic => "panic"
+  | .diverge => "diverge"
+
+def okHex (o : Out Bytes) : String := outStr o hexOf
+
+def dstLine (l : List Nat) : String := "ok " ++ join (wList wNat l)
+
+def subDec (kind : String) (b : Bytes) : Option String :=
+  match kind with
+  | "HDR" => some (outStr (Header.dec b) (join ∘ wHeader))
+  | "RREP" => some (outStr (ReceptionReport.dec b) (join ∘ wRRep))
+  | "CHUNK" => some (outStr (SDESChunk.dec b) (join ∘ wChunk))
+  | "ITEM" => some (outStr (SDESItem.dec b) (join ∘ wItem))
+  | "RLC" => some (outStr (rlChunkDec b) (join ∘ wTwccChunk))
+  | "SVC" => some (outStr (svChunkDec b) (join ∘ wTwccChunk))
+  | "DELTA" => some (outStr (RecvDelta.dec b) (join ∘ wDelta))
+  | "COMPOUND" => some (outStr (cdec b) (join ∘ wPackets))
+  | _ => none
+
+def subEnc (kind : String) (toks : List String) : Option String :=
+  match kind with
+  | "HDR" => (run pHeader toks).map fun h => okHex h.enc
+  | "RREP" => (run pRRep toks).map fun h => okHex h.enc
+  | "CHUNK" => (run pChunk toks).map fun h => okHex h.enc
+  | "ITEM" => (run pItem toks).map fun h => okHex h.enc
+  | "TCHUNK" => (run pTwccChunk toks).map fun h => okHex h.enc
+  | "DELTA" => (run pDelta toks).map fun h => okHex h.enc
+  | _ => none
+
+def packetsStr (ps : List Packet) : String := join (wPackets ps)
+
+/-- the documented quantisations of C02 are applied by the *harness oracle*; the model just runs the chain -/
+def rtLine (ps : List Packet) : String :=
+  match uenc ps with
+  | .ok b =>
+    match udec b with
+    | .ok ps2 =>
+      let t2 := packetsStr ps2
+      match uenc ps2 with
+      | .ok b2 => s!"ok {hexOf b} ; {t2} ; {hexOf b2}"
+      | .err => s!"ok {hexOf b} ; {t2} ; err"
+      | .panic => "panic"
+      | .diverge => "diverge"
+    | .err => s!"ok {hexOf b} ; err"
+    | .panic => "panic"
+    | .diverge => "diverge"
+  | .err => "err"
+  | .panic => "panic"
+  | .diverge => "diverge"
+
+def reencLine (b : Bytes) : String :=
+  match udec b with
+  | .ok ps =>
+    let t1 := packetsStr ps
+    match uenc ps with
+    | .ok b2 =>
+      match udec b2 with
+      | .ok ps3 => s!"ok {t1} ; {hexOf b2} ; {packetsStr ps3}"
+      | .err => s!"ok {t1} ; {hexOf b2} ; err"
+      | .panic => "panic"
+      | .diverge => "diverge"
+    | .err => s!"ok {t1} ; err"
+    | .panic => s!"ok {t1} ; panic"
+    | .diverge => "diverge"
+  | .err => "err"
+  | .panic => "panic"
+  | .diverge => "diverge"
+
+def histLine (toks : List String) : Option String := do
+  let ((p, ops), _) ← (do let p ← pPacket; let n ← pNat; let rest ← get; pure (p, rest.take n) : P _).run toks
+  let kind := p.kind
+  let rec go (p : Packet) (ops : List String) (acc : List String) : Option (Packet × List String) :=
+    match ops with
+    | [] => some (p, acc.reverse)
+    | op :: rest =>
+      if op = "M" then
+        match p.encP with
+        | .ok (b, p') => go p' rest (("M=" ++ hexOf b) :: acc)
+        | .err => go p rest ("M=err" :: acc)
+        | _ => none
+      else if op = "S" then go p rest (s!"S={p.marshalSize}" :: acc)
+      else if op = "D" then go p rest (("D=" ++ ",".intercalate (wList wNat p.dest)) :: acc)
+      else if op = "T" then go p rest ("T" :: acc)
+      else if op.startsWith "U" then
+        match unhex (op.drop 1).toString with
+        | some b =>
+          match decKind kind b with
+          | .ok q => go q rest ("U=ok" :: acc)
+          | .err => go p rest ("U=err" :: acc)
+          | _ => none
+        | none => none
+      else none
+  match go p ops [] with
+  | some (p', res) => some ("ok " ++ join res ++ " ; " ++ join (wBody p'))
+  | none => some "panic"
+
+def execOp (line : String) : String :=
+  let toks := (line.splitOn " ").filter (· ≠ "")
+  match toks with
+  | [] => "bad-op"
+  | op :: args =>
+    let (base, kind) := match op.splitOn "." with
+      | [b, k] => (b, k)
+      | _ => (op, "")
+    let bad := "bad-op " ++ op
+    let withPkt (f : Packet → String) : String :=
+      match kindOfName kind with
+      | some k => match run (pBody k) args with
+        | some p => f p
+        | none => bad
+      | none => bad
+    let withPkts (f : List Packet → String) : String :=
+      match run pPackets args with
+      | some ps => f ps
+      | none => bad
+    let withHex (f : Bytes → String) : String :=
+      match args with
+      | [h] => match unhex h with
+        | some b => f b
+        | none => bad
+      | _ => bad
+    match base with
+    | "dec" => withHex fun b =>
+        match subDec kind b with
+        | some s => s
+        | none => match kindOfName kind with
+          | some k => outStr (decKind k b) (join ∘ wBody)
+          | none => bad
+    | "enc" =>
+        match subEnc kind args with
+        | some s => s
+        | none =>
+          if kind = "XR" then withPkt fun p =>
+            outStr p.encP fun (b, p') => hexOf b ++ " " ++ join (wBody p')
+          else if kindOfName kind = none then bad
+          else withPkt fun p => okHex p.enc
+    | "encspec" => withPkt fun p => okHex (Spec.encOrWire p)
+    | "size" => withPkt fun p => s!"ok {p.marshalSize}"
+    | "hdr" => withPkt fun p => match p.header? with
+        | some h => "ok " ++ join (wHeader h)
+        | none => "bad-op no Header()"
+    | "len" => withPkt fun p => match p with
+        | .twcc v => s!"ok {v.len}"
+        | .ccfb v => s!"ok {v.marshalSize}"
+        | _ => "bad-op no Len()"
+    | "dst" => withPkt fun p => dstLine p.dest
+    | "str" => withPkt fun _ => "ok"
+    | "udec" | "udecp" => withHex fun b => outStr (udec b) packetsStr
+    | "uenc" => withPkts fun ps => okHex (uenc ps)
+    | "cval" => withPkts fun ps => outStr (cval ps) fun _ => ""
+    | "ccname" => withPkts fun ps => okHex (ccname ps)
+    | "cenc" => withPkts fun ps => okHex (cenc ps)
+    | "cdec" => withHex fun b => outStr (cdec b) packetsStr
+    | "csize" => withPkts fun ps => s!"ok {csize ps}"
+    | "cdst" => withPkts fun ps => dstLine (cdst ps)
+    | "rt" => withPkts rtLine
+    | "reenc" => withHex reencLine
+    | "framed" => withPkt fun p =>
+        match p.enc with
+        | .ok b =>
+          let hs := match Header.dec b with
+            | .ok h => join (wHeader h)
+            | _ => "err"
+          s!"ok {b.length} {p.marshalSize} {hs}"
+        | .err => "err"
+        | .panic => "panic"
+        | .diverge => "diverge"
+    | "rtdst" => withPkts fun ps =>
+        match ps with
+        | [p] =>
+          let d1 := dstLine p.dest
+          match uenc ps with
+          | .ok b => match udec b with
+            | .ok [p2] => d1 ++ " ; " ++ dstLine p2.dest
+            | _ => d1 ++ " ; err"
+          | .err => "err"
+          | .panic => "panic"
+          | .diverge => "diverge"
+        | _ => "bad-op rtdst"
+    | "strdec" => withHex fun b => outStr (udec b) fun _ => ""
+    | "cstr" => withPkts fun _ => "ok"
+    | "nackpairs" => match run (pList pNat) args with
+        | some l => "ok " ++ join (wList (fun (n : NackPair) => wNat n.packetID ++ wNat n.lost) (nackPairs l))
+        | none => bad
+    | "plist" => match args.map String.toNat? with
+        | [some id, some bm] => "ok " ++ join (wList wNat (NackPair.packetList { packetID := id, lost := bm }))
+        | _ => bad
+    | "range" => match args.map String.toNat? with
+        | [some id, some bm, some k] =>
+          let p : NackPair := { packetID := id, lost := bm }
+          let seen := p.range (fun (acc : List Nat) s => (acc ++ [s], !(k > 0 && acc.length + 1 ≥ k))) []
+          "ok " ++ join (wList wNat seen)
+        | _ => bad
+    | "rembunit" => match args.map String.toNat? with
+        | [some bits] => s!"ok {rembUnitIndex bits}"
+        | _ => bad
+    | "enumstr" => match args.map String.toNat? with
+        | [some n] =>
+          let s := match kind with
+            | "PacketType" => some (packetTypeString n)
+            | "SDESType" => some (sdesTypeString n)
+            | "BlockTypeType" => some (blockTypeString n)
+            | "TTLorHopLimitType" => some (tohString n)
+            | "Chunk" => some (xrChunkString n)
+            | _ => none
+          match s with
+          | some s => "ok " ++ hexOf s.toUTF8.toList
+          | none => bad
+        | _ => bad
+    | "xrchunk" => match args.map String.toNat? with
+        | [some c] =>
+          let (rt, e) := xrChunkRunType c
+          s!"ok {xrChunkType c} {rt} {if e then 1 else 0} {xrChunkValue c}"
+        | _ => bad
+    | "util" => match kind, args.map String.toNat? with
+        | "getPadding", [some n] => s!"ok {getPadding n}"
+        | "setNBits", [some a, some b, some c, some d] => outStr (setNBitsOfUint16 a b c d) toString
+        | "appendNBits", [some a, some b, some c] => s!"ok {appendNBitsToUint32 a b c}"
+        | "getNBits", [some a, some b, some c] => s!"ok {getNBitsFromByte a b c}"
+        | "localMin", [some a, some b] => s!"ok {localMin a b}"
+        | _, _ => bad
+    | "ccfbblock" => match kind with
+        | "enc" => match run pCcfbBlock args with
+          | some b => okHex b.enc
+          | none => bad
+        | "dec" => withHex fun b => outStr (CcfbBlock.dec b) (join ∘ wCcfbBlock)
+        | "len" => match run pCcfbBlock args with
+          | some b => s!"ok {b.len}"
+          | none => bad
+        | _ => bad
+    | "ccfbmetric" => match kind with
+        | "enc" => match run pMetric args with
+          | some b => okHex b.enc
+          | none => bad
+        | "dec" => withHex fun b => outStr (CcfbMetric.dec b) (join ∘ wMetric)
+        | _ => bad
+    | "hist" => match histLine args with
+        | some s => s
+        | none => bad
+    | _ => bad
+
+partial def loop (hin hout : IO.FS.Stream) : IO Unit := do
+  let line ← hin.getLine
+  if line.isEmpty then return ()
+  let l := line.trimAscii.toString
+  if l.isEmpty || l.startsWith "#" then loop hin hout
+  else
+    hout.putStrLn (execOp l)
+    loop hin hout
+
+def main : IO Unit := do
+  let hin ← IO.getStdin
+  let hout ← IO.getStdout
+  loop hin hout
+  hout.flush
